@@ -61,11 +61,11 @@ def _case(draw, targets=None, focus=None):
             for mt in NUM.finditer(v):
                 if focus != "own" or n in ("Species", "Tabulation"):
                     spots.append((si, ei, mt.start(), mt.end()))
-    nl = draw(st.integers(0, min(6, len(spots))))
+    nl = draw(st.integers(1 if (focus == "section" and spots) else 0, min(6, len(spots))))
     chosen = sorted(draw(st.permutations(spots))[:nl]) if spots else []
     lifts = []
     for i, sp in enumerate(chosen):
-        kind = "own" if focus == "own" else draw(st.sampled_from(["var", "var", "section", "own"]))
+        kind = "own" if focus == "own" else "section" if focus == "section" else draw(st.sampled_from(["var", "var", "section", "own"]))
         name = draw(st.sampled_from(VAR_NAMES + FOREIGN[:7])) + ("_%d" % i if draw(st.booleans()) else "")
         # nested: the value the placeholder points at is itself written with a placeholder
         lifts.append({"spot": list(sp), "kind": kind, "name": name, "nested": draw(st.integers(0, 3)) == 0})
@@ -89,7 +89,9 @@ def strategy(tier):
 def strata(tier):
     return [("pair", _case(gen.PAIR_TARGETS), 4), ("eam", _case(sorted(gen.EAM_TARGETS)), 5),
             ("defaults:target_left_out", _case(["LAMMPS"], "defaults"), 1),
-            ("own_section", _case(sorted(gen.EAM_TARGETS), "own"), 2)]
+            ("own_section", _case(sorted(gen.EAM_TARGETS), "own"), 2),
+            # every lifted number is written ${Constants:NAME}: the re-read after [Constants] was edited applies
+            ("section_refs", _case(None, "section"), 1.2)]
 
 
 def budget(tier):
@@ -258,7 +260,7 @@ def check_case(case):
     if consts and not v and case.get("route") not in ("cli",):
         edits = {}
         for k, tok in consts[0]:
-            if "." in tok and "e" not in tok.lower() and "$" not in tok:
+            if re.fullmatch(r"-?[0-9]+(\.[0-9]+)?", tok):
                 edits[k] = tok + "5"
         if edits:
             with2 = [[n, [[k, (edits.get(k, val) if n == "Constants" else val)] for k, val in e]] for n, e in withvars]
